@@ -34,6 +34,11 @@ pub struct Fault {
     pub slack: u64,
     /// a second fault injected into the first follow-up commit (pairs)
     pub second: Option<(String, i64)>,
+    /// bytes really written by a short write (0 = half of the buffer); for the second fault too
+    #[serde(default)]
+    pub short_len: i64,
+    #[serde(default)]
+    pub second_short_len: i64,
 }
 
 fn k(i: usize) -> K {
@@ -206,9 +211,17 @@ pub fn inject(t: &Target, p: &Prepared, f: &Fault, path: &std::path::Path, vio: 
     run.tolerate_commit_err = true;
     let mut m = p.pre.clone();
     st.injected += 1;
-    let phase = format!("{}#{}{}", f.class, f.nth, match f.kind { 1 => ":short", 2 => ":from-here-on", _ => "" });
+    let phase = format!("{}#{}{}{}", f.class, f.nth, match f.kind { 1 => ":short", 2 => ":from-here-on", _ => "" }, if f.short_len > 0 { format!("({}B)", f.short_len) } else { String::new() });
     let arm = |f: &Fault| match f.class.as_str() {
-        "write" => vio.arm(vio::CLASS_WRITE, f.nth, f.errno, f.kind),
+        "write" => {
+            vio.arm(vio::CLASS_WRITE, f.nth, f.errno, f.kind);
+            vio.short_len(f.short_len);
+        }
+        "header-write" => {
+            vio.arm(vio::CLASS_HEADER_WRITE, f.nth, f.errno, f.kind);
+            vio.short_len(f.short_len);
+            vio.below(2 * ps as i64);
+        }
         "fsync" => vio.arm(vio::CLASS_FSYNC, f.nth, f.errno, f.kind),
         _ => {}
     };
@@ -309,7 +322,14 @@ pub fn inject(t: &Target, p: &Prepared, f: &Fault, path: &std::path::Path, vio: 
                 st.pairs += 1;
                 run2.tolerate_commit_err = true;
                 vio.reset();
-                vio.arm(if cls == "fsync" { vio::CLASS_FSYNC } else { vio::CLASS_WRITE }, *nth, libc::EIO, 0);
+                if cls == "header-write-short" {
+                    let _ = nth;
+                    vio.arm(vio::CLASS_HEADER_WRITE, 0, libc::EIO, 1);
+                    vio.short_len(f.second_short_len);
+                    vio.below(2 * ps as i64);
+                } else {
+                    vio.arm(if cls == "fsync" { vio::CLASS_FSYNC } else { vio::CLASS_WRITE }, *nth, libc::EIO, 0);
+                }
             }
         }
         let before = model.clone();
@@ -369,7 +389,7 @@ pub fn inject(t: &Target, p: &Prepared, f: &Fault, path: &std::path::Path, vio: 
 
 pub fn faults_for(p: &Prepared, growing: bool, thorough: bool) -> Vec<Fault> {
     let mut v = Vec::new();
-    let f = |class: &str, nth: i64, errno: i32, kind: i32| Fault { class: class.into(), nth, errno, kind, slack: 0, second: None };
+    let f = |class: &str, nth: i64, errno: i32, kind: i32| Fault { class: class.into(), nth, errno, kind, slack: 0, second: None, short_len: 0, second_short_len: 0 };
     for i in 0..p.n_writes as i64 {
         v.push(f("write", i, libc::EIO, 0));
         v.push(f("write", i, libc::ENOSPC, 0));
@@ -384,7 +404,7 @@ pub fn faults_for(p: &Prepared, growing: bool, thorough: bool) -> Vec<Fault> {
     }
     if growing {
         for slack in [0u64, 4096, 4 << 20, 8 << 20, (8 << 20) + 4096, 16 << 20] {
-            v.push(Fault { class: "rlimit".into(), nth: 0, errno: libc::EFBIG, kind: 0, slack, second: None });
+            v.push(Fault { class: "rlimit".into(), nth: 0, errno: libc::EFBIG, kind: 0, slack, second: None, short_len: 0, second_short_len: 0 });
         }
     }
     // pairs: one fault in this commit, one in the next
@@ -399,6 +419,27 @@ pub fn faults_for(p: &Prepared, growing: bool, thorough: bool) -> Vec<Fault> {
     let mut x = f("fsync", (p.n_fsyncs as i64 - 1).max(0), libc::EIO, 0);
     x.second = Some(("fsync".into(), 0));
     v.push(x);
+    // the header write (the last write of the commit) torn at chosen byte counts: inside the page
+    // header, inside the record, just short of / just past the end of the record (byte 104)
+    let cuts: [i64; 10] = [8, 40, 57, 64, 80, 89, 96, 103, 104, 200];
+    for c in cuts {
+        let mut x = f("header-write", 0, libc::EIO, 1);
+        x.short_len = c;
+        v.push(x);
+    }
+    // and pairs of torn header writes in two consecutive commits
+    let pair_cuts: Vec<(i64, i64)> = if thorough {
+        cuts.iter().flat_map(|a| cuts.iter().map(move |b| (*a, *b))).collect()
+    } else {
+        vec![(100, 80), (96, 80), (103, 96), (89, 64), (100, 57), (57, 100), (104, 80), (80, 104), (40, 40), (103, 103)]
+    };
+    for (a, b) in pair_cuts {
+        let mut x = f("header-write", 0, libc::EIO, 1);
+        x.short_len = a;
+        x.second = Some(("header-write-short".into(), 0));
+        x.second_short_len = b;
+        v.push(x);
+    }
     v
 }
 
